@@ -30,7 +30,7 @@ def run_lines(inst, rng_sched, frames):
         lines.append('gb.btn %d %d %d' % (inst, btn, pressed))
     if frames > f:
         lines.append('gb.frames %d %d' % (inst, frames - f))
-    lines += ['gb.obs %d' % inst, 'gb.pix %d' % inst, 'gb.serial %d' % inst, 'gb.dump %d' % inst,
+    lines += ['gb.obs %d' % inst, 'gb.pix %d' % inst, 'gb.audio %d' % inst, 'gb.serial %d' % inst, 'gb.dump %d' % inst,
               'gb.rr %d 49152 49407' % inst, 'gb.rr %d 65408 65535' % inst]
     return lines
 
@@ -41,8 +41,9 @@ def generate(rng, tier):
     frames = 12 if tier == 'quick' else 40
     for i, r in enumerate(rl):
         sched = sorted((rng.randrange(frames), rng.randrange(8), rng.randrange(2)) for _ in range(6))
-        lines = ['gb.new 0 %s' % sysgen.enc(r)] + run_lines(0, sched, frames)
-        lines += ['gb.new 1 %s' % sysgen.enc(r)] + run_lines(1, sched, frames)
+        aud = i % 2          # every second ROM runs with the audio output attached (slow stub consumer)
+        lines = ['gb.new 0 %s 1 %d' % (sysgen.enc(r), aud)] + run_lines(0, sched, frames)
+        lines += ['gb.new 1 %s 1 %d' % (sysgen.enc(r), aud)] + run_lines(1, sched, frames)
         cases.append(('rom%d' % i, lines))
     for i, (typ, ramc) in enumerate([(0x10, 3), (0x13, 3), (0x03, 2), (0x1b, 3)]):
         sched = sorted((rng.randrange(frames), rng.randrange(8), rng.randrange(2)) for _ in range(4))
@@ -60,7 +61,38 @@ def generate(rng, tier):
             lines += ['gb.frames %d 2' % inst, 'gb.pix %d' % inst, 'gb.frames %d 1' % inst, 'gb.pix %d' % inst,
                       'gb.obs %d' % inst, 'gb.rr %d 65024 65183' % inst]
         cases.append(('scene%d' % i, lines))
-    info = dict(input_distribution=dict(roms=len(rl), frames=frames, object_scenes=nscene),
+    # sound programmed through the bus with the audio output attached: the delivered sample stream is part of the trace
+    nsound = 2 if tier == 'quick' else 12
+    for i in range(nsound):
+        import random as _r
+        seed = rng.randrange(1 << 30)
+        lines = []
+        for inst in (0, 1):
+            r2 = _r.Random(seed)
+            lines += ['gb.newloop %d 0 0 0 1 0' % inst, 'gb.w %d 65318 128' % inst, 'gb.w %d 65316 %d' % (inst, r2.randrange(256)),
+                      'gb.w %d 65317 %d' % (inst, r2.choice([0xff, 0xf0, 0x0f, r2.randrange(256)]))]
+            for a in (0xff12, 0xff17, 0xff21):
+                lines.append('gb.w %d %d %d' % (inst, a, r2.choice([0xf3, 0xa7, 0x80 | r2.randrange(128)])))
+            lines += ['gb.w %d 65306 128' % inst, 'gb.w %d 65308 32' % inst]
+            for a in (0xff10, 0xff11, 0xff13, 0xff16, 0xff18, 0xff1d, 0xff22):
+                lines.append('gb.w %d %d %d' % (inst, a, r2.randrange(256)))
+            for k in range(16):
+                lines.append('gb.w %d %d %d' % (inst, 0xff30 + k, r2.randrange(256)))
+            for a in (0xff14, 0xff19, 0xff1e, 0xff23):
+                lines.append('gb.w %d %d %d' % (inst, a, 0x80 | r2.randrange(8)))
+            for _ in range(4):
+                lines += ['gb.frames %d %d' % (inst, r2.randrange(1, 4)), 'gb.audio %d' % inst,
+                          'gb.w %d %d %d' % (inst, r2.choice([0xff14, 0xff19, 0xff1e, 0xff23, 0xff25, 0xff24]), r2.randrange(256))]
+            lines += ['gb.obs %d' % inst]
+        cases.append(('sound%d' % i, lines))
+    # a machine that was shut down (Run returned, outputs released) leaves nothing behind for the next one
+    for i in range(2 if tier == 'quick' else 8):
+        import random as _r
+        lines = ['gb.newloop 0 0 0 0 0 1'] + sysgen.scene_lines(_r.Random(rng.randrange(1 << 30)), 0)
+        lines += ['gb.runclose 0 %d' % rng.randrange(1, 4), 'gb.pix 0', 'gb.newloop 1 0 0 0 0 %d' % (i % 2), 'gb.w 1 65344 0', 'gb.frames 1 1',
+                  'gb.pix 1', 'gb.obs 1', 'gb.newloop 2 0 0 0 0 1', 'gb.frames 2 1', 'gb.pix 2']
+        cases.append(('reuse%d' % i, lines))
+    info = dict(input_distribution=dict(roms=len(rl), frames=frames, object_scenes=nscene, sound_cases=nsound),
                 samples=[dict(case=cases[0][0], script=cases[0][1])])
     generate.cases = cases
     return cases, info
@@ -84,6 +116,8 @@ def extra(check, ci, cm, cases):
     viol = []
     # in-process: the two instances of every case must agree line by line
     for cid, lines in cases:
+        if cid.startswith('reuse'):
+            continue                      # not a pair of identical runs
         o = ci.get(cid) or []
         h = len(o) // 2
         if o[:h] != o[h:]:
